@@ -153,9 +153,10 @@ def run_case(program, ops, truth, model=None, loaded=None, hooks=None, scripts=N
             return RUN.execute(loaded, live, truth, hooks=hooks, event_budget=event_budget)
 
         if fresh_thread:
-            res.real_log, res.real_outs, _ = core.in_fresh_thread(go)
+            res.real_log, res.real_outs, res.run = core.in_fresh_thread(go)
         else:
-            res.real_log, res.real_outs, _ = go()
+            res.real_log, res.real_outs, res.run = go()
+        res.loaded = loaded
         res.real_log = [norm_event(e) for e in res.real_log]
         res.ref_log = [norm_event(e) for e in res.ref_log]
         return res
